@@ -26,6 +26,7 @@ def judge(case):
         g = fresh_sphere_grid(alg, N)
         with quiet():
             P = np.asarray(g.get_grid_as_array())
+            P_first = P.copy()
             adj = g.get_voronoi_adjacency()
             bor = g.get_cell_borders()
             dis = g.get_center_distances()
@@ -121,6 +122,21 @@ def judge(case):
                         f"the reported geometry (areas differ by up to {dev:.3g})")
     except Exception as e:
         msgs.append(f"{alg}_{N}: second round of getters raised {type(e).__name__}: {e}")
+    # a grid is a function of its name: whatever the caller did to the objects it holds (here: it overwrites the point
+    # arrays of the two grids above, which are its to ruin), a newly requested grid of the same name is the pristine grid
+    try:
+        with quiet():
+            for old in (g, g2):
+                scribble(old.get_grid_as_array())
+            g3 = fresh_sphere_grid(alg, N)
+            P3 = np.asarray(g3.get_grid_as_array())
+            areas3 = np.asarray(g3.get_voronoi_volumes())
+            bor3 = dense(g3.get_cell_borders()).astype(float)
+        if P3.shape != P_first.shape or not np.array_equal(P3, P_first) or not np.array_equal(areas3, areas) or not np.array_equal(bor3, B):
+            msgs.append(f"{alg}_{N}: a newly requested grid differs from the first one after the caller overwrote the point "
+                        f"arrays of earlier grid objects of the same name")
+    except Exception as e:
+        msgs.append(f"{alg}_{N}: new grid after the caller edited earlier ones: {type(e).__name__}: {e}")
     return msgs, info
 
 
